@@ -63,6 +63,22 @@ class ModInfo:
                             and isinstance(st.targets[0].value, ast.Name) and st.targets[0].value.id == 'self' and const_expr(st.value)):
                         out[st.targets[0].attr] = st.value
         self.init_exprs[cls.name] = {k: v for k, v in out.items() if count.get(k) == 1}
+        # tables the constructor creates empty (self.X = set() / {} / dict()): per-instance tables a contract written earlier may not know
+        if not hasattr(self, 'init_tables'):
+            self.init_tables = {}
+        tabs = {}
+        for fn in cls.body:
+            if isinstance(fn, (ast.FunctionDef, ast.AsyncFunctionDef)) and fn.name in ('__init__', 'init'):
+                for st in fn.body:
+                    if (isinstance(st, ast.Assign) and len(st.targets) == 1 and isinstance(st.targets[0], ast.Attribute)
+                            and isinstance(st.targets[0].value, ast.Name) and st.targets[0].value.id == 'self'):
+                        v = st.value
+                        if isinstance(v, ast.Call) and not v.args and not v.keywords and ast.unparse(v.func) == 'set':
+                            tabs[st.targets[0].attr] = 'set'
+                        elif (isinstance(v, ast.Dict) and not v.keys) or (isinstance(v, ast.Call) and not v.args and not v.keywords
+                                                                         and ast.unparse(v.func) == 'dict'):
+                            tabs[st.targets[0].attr] = 'dict'
+        self.init_tables[cls.name] = tabs
 
     def _top(self, node):
         if isinstance(node, ast.Assign) and len(node.targets) == 1 and isinstance(node.targets[0], ast.Name):
@@ -274,6 +290,19 @@ def verify_fuc(spec, opts):
             try:
                 for f, k in spec.fields.items():
                     st.declare_field(f, k)
+                # tables the class's constructor creates that the contract does not declare (added to the code since the contract
+                # was written): modelled as tables keyed by references, so that residue / frame obligations can speak about them
+                if spec.opts.get('auto_tables'):
+                    auto = []
+                    for f, what in sorted(getattr(mod, 'init_tables', {}).get(clsname or '', {}).items()):
+                        if f not in st.fields and f not in spec.getattr_hooks:
+                            st.declare_field(f, Set(Ref) if what == 'set' else Dict(Ref, Any))
+                            auto.append(f)
+                    st.ghost['AUTO_TABLES'] = auto
+                    if auto and record:
+                        note = 'tables of %s not named in the contract, modelled as tables keyed by references: %s' % (clsname, auto)
+                        if note not in res.notes:
+                            res.notes.append(note)
                 args = spec.setup(I)
                 ctx = {'pre': st.snapshot(), 'args': args, 'alloc0': st.alloc}
                 st.setup_len = len(st.pc)
